@@ -267,6 +267,21 @@ def s_step(draw):
         else:
             text = text[:i] + text[i].swapcase() + text[i + 1:]
         return {'chain': chain, 'act': 'parse', 'text': text, 'tag': 'mutated'}
+    if k == 11 and draw(st.booleans()):
+        # checksum-VALID bech32 text under this chain's prefix whose 5-bit payload breaks a data rule: non-zero padding bits,
+        # a whole surplus symbol, a version-0 program of 19/21/31/33/40 bytes (or is fine: version 0 with 20/32 bytes)
+        hrp = RC.CHAINS[chain]['hrp']
+        nbytes = draw(st.sampled_from([20, 32, 20, 32, 19, 21, 31, 33, 40, 2]))
+        nsym = (nbytes * 8 + 4) // 5 + draw(st.sampled_from([0, 0, 0, 1]))
+        body = draw(st.lists(st.integers(0, 31), min_size=nsym, max_size=nsym))
+        if draw(st.booleans()):
+            pad = (nsym * 5) % 8
+            if pad < 5:
+                body[-1] &= ~((1 << pad) - 1) & 31
+        data5 = [draw(st.sampled_from([0, 0, 0, 1, 16]))] + body
+        pm = B32.polyrem(B32.hrp_expand(hrp) + data5 + [0] * 6) ^ 1
+        text = hrp + '1' + ''.join(B32.CHARSET[x] for x in data5 + [(pm >> 5 * (5 - i)) & 31 for i in range(6)])
+        return {'chain': chain, 'act': 'parse', 'text': text, 'tag': 'b32-raw5'}
     if k == 11:
         return {'chain': chain, 'act': 'parse', 'text': draw(st.one_of(st.text(max_size=60), st.text(alphabet=b58.ALPHABET, max_size=50),
                                                                         st.text(alphabet=B32.CHARSET + '1bctr', max_size=70),
